@@ -8,7 +8,7 @@ import wgslgen as W
 ID = "C16"
 REQUIRES = ["Agree"]
 THEOREM_REQUIRES = ["C16"]
-THEOREMS = ["C16_roundtrip", "C16_literal_wellformed", "C16_source_field", "C16_include_only_source"]
+THEOREMS = ["C16_roundtrip", "C16_literal_wellformed", "C16_source_field", "C16_include_only_source", "C16_text"]
 PROOF_FILES = ["Spec/Escape.v", "Properties/C16.v"]
 RULE = ("valid shaders with comments / identifiers carrying quotes, backslashes, braces, CR, LF, CRLF, NUL and other C0/C1 "
         "controls, DEL, combining marks, RTL overrides, BOM, non-BMP characters, NUL followed by octal digits, very long "
